@@ -283,7 +283,11 @@ func (p *party) Sign(ctx context.Context, msgHash []byte) ([]byte, error) {
 				continue
 			}
 			p.logger.Debugf("%s Got message from %s", p.id.Id, routing.From.Id)
-			ok, err := party.UpdateFromBytes(raw, routing.From, routing.IsBroadcast)
+			ok, err, panicked := update(party, raw, routing.From, routing.IsBroadcast)
+			if panicked != nil {
+				// The protocol party is in an undefined state (and may still hold its lock), we cannot carry on with it
+				return nil, fmt.Errorf("protocol party failed processing a message from %s: %v", routing.From.Id, panicked)
+			}
 			if !ok {
 				p.logger.Warnf("Received error when updating party: %v", err.Error())
 				continue
@@ -336,13 +340,28 @@ func (p *party) KeyGen(ctx context.Context) ([]byte, error) {
 				continue
 			}
 			p.logger.Debugf("%s Got message from %s", p.id.Id, routing.From.Id)
-			ok, err := party.UpdateFromBytes(raw, routing.From, routing.IsBroadcast)
+			ok, err, panicked := update(party, raw, routing.From, routing.IsBroadcast)
+			if panicked != nil {
+				// The protocol party is in an undefined state (and may still hold its lock), we cannot carry on with it
+				return nil, fmt.Errorf("protocol party failed processing a message from %s: %v", routing.From.Id, panicked)
+			}
 			if !ok {
 				p.logger.Warnf("Received error when updating party: %v", err.Error())
 				continue
 			}
 		}
 	}
+}
+
+// update hands a message of a peer to the protocol party. The protocol library takes some properties of a
+// well-formed message for granted and panics when a misbehaving peer does not honor them, which must not take
+// the whole process down.
+func update(party tss.Party, raw []byte, from *tss.PartyID, isBroadcast bool) (ok bool, err *tss.Error, panicked interface{}) {
+	defer func() {
+		panicked = recover()
+	}()
+	ok, err = party.UpdateFromBytes(raw, from, isBroadcast)
+	return
 }
 
 func (p *party) sendMessages() {
